@@ -40,6 +40,21 @@ CLAIMED = {
         "parse_units' derived-symbol tables (tied by correspondence, exhaustive on the symbol tables, sampled on triples); "
         "binary64 rounding bounded by the property's own 1e-12; the Python harness.",
         "DESIGN.md section 6 / C06"),
+    "C13": (
+        "Coq proof of layout (species-major index), value (SI of density x volume), units and get/set array laws + random-system correspondence",
+        "Theorems (Props/C13.v, closed under the global context, any number of species/cells/environments, grid or graph): entry "
+        "s*ncells+c of the default state is the species' density in the cell's environment (entry, else 'default', else zero) times "
+        "the cell's volume - equal SI values, dimension amount, expressed in the network's units - and the default chemostat map holds "
+        "the species' flag for the cell's environment at the same index; both have length nspecies*ncells; get after set returns the "
+        "written quantity converted to the array's units, a set leaves every other (species, cell) entry unchanged, distinct pairs "
+        "are distinct entries, a bare number is read in the system's units, a wrong dimension is rejected, label and index address "
+        "the same species. Tied to rdsystem.py / value_processing.py / rdgraphspace.py on every run by random systems with "
+        "independent unit systems at every level and random accessor sequences (species by index/label/object, cell by "
+        "index/tuple/object, invalid addresses) incl. species edits followed by regeneration; verdict computed in Coq.",
+        "Trusted: Coq kernel + VM; the hand-written model of generate_system_state / generate_system_chemostats / get_value_in_env / "
+        "get_state_index / set_state (tied by sampled correspondence: 300 systems quick, 5000 thorough); environment indices are "
+        "generated valid (invalid ones belong to C20); binary64 compared at relative 1e-9; the Python harness.",
+        "DESIGN.md section 6 / C13"),
     "C15": (
         "Coq proof over Z (index/coordinate bijection, per-axis neighbour multiplicities lifted to 3-D, engine neighbour involution) + exhaustive small-grid correspondence",
         "Theorems (Props/C15.v, closed under the global context, every w,h,d >= 1 and all 8 boundary mixes): index = z*w*h+y*w+x "
